@@ -1,0 +1,32 @@
+//go:build verif
+
+// Contracts for package impl (properties C21, C08). Comment-only: read by /verif/bin/gsv, never
+// compiled into the package.
+
+package graphsync
+
+//@ -- a user-supplied option may set any configuration field
+//@ func New$option
+//@   assumed
+//@   params gs
+//@   modifies graphsyncConfigOptions.totalMaxMemoryResponder, graphsyncConfigOptions.maxMemoryPerPeerResponder,
+//@            graphsyncConfigOptions.maxInProgressIncomingRequests, graphsyncConfigOptions.maxInProgressIncomingRequestsPerPeer,
+//@            graphsyncConfigOptions.maxInProgressOutgoingRequests, graphsyncConfigOptions.registerDefaultValidator,
+//@            graphsyncConfigOptions.maxLinksPerOutgoingRequest, graphsyncConfigOptions.maxLinksPerIncomingRequest,
+//@            graphsyncConfigOptions.messageSendRetries, graphsyncConfigOptions.sendMessageTimeout, graphsyncConfigOptions.panicCallback
+
+//@ -- C21: the configured limits are what the two worker pools and the per-peer option get
+//@ -- C08: the default selector validator (depth 100) is registered unless the configuration turned it off
+//@ func New
+//@   lenient
+//@   safety off
+//@   modifies alloc, graphsyncConfigOptions.totalMaxMemoryResponder, graphsyncConfigOptions.maxMemoryPerPeerResponder,
+//@            graphsyncConfigOptions.maxInProgressIncomingRequests, graphsyncConfigOptions.maxInProgressIncomingRequestsPerPeer,
+//@            graphsyncConfigOptions.maxInProgressOutgoingRequests, graphsyncConfigOptions.registerDefaultValidator,
+//@            graphsyncConfigOptions.maxLinksPerOutgoingRequest, graphsyncConfigOptions.maxLinksPerIncomingRequest,
+//@            graphsyncConfigOptions.messageSendRetries, graphsyncConfigOptions.sendMessageTimeout, graphsyncConfigOptions.panicCallback
+//@   callsite peertaskqueue.MaxOutstandingWorkPerPeer: assert gsConfig.maxInProgressIncomingRequestsPerPeer > 0 && $count == gsConfig.maxInProgressIncomingRequestsPerPeer
+//@   callsite taskqueue.NewTaskQueue argis "ptqopts": assert (gsConfig.maxInProgressIncomingRequestsPerPeer > 0) <==> (len($ptqopts) == 1)
+//@   callsite WorkerTaskQueue.Startup argis "gsConfig.maxInProgressOutgoingRequests": assert self == requestQueue && $workerCount == gsConfig.maxInProgressOutgoingRequests
+//@   callsite WorkerTaskQueue.Startup argis "gsConfig.maxInProgressIncomingRequests": assert self == responseQueue && $workerCount == gsConfig.maxInProgressIncomingRequests
+//@   callsite selectorvalidator.SelectorValidator: assert gsConfig.registerDefaultValidator && $maxAcceptedDepth == 100
